@@ -316,7 +316,14 @@ func cmdCheck(mode string, args []string) int {
 	known := loadKnown()
 	byName := map[string]*Result{}
 	for i := range results {
-		byName[results[i].Fn+"::"+results[i].Name] = &results[i]
+		k := results[i].Fn + "::" + results[i].Name
+		if old, dup := byName[k]; dup {
+			// never let a passing duplicate hide a failing one
+			if old.Status != "discharged" {
+				continue
+			}
+		}
+		byName[k] = &results[i]
 	}
 	violations := 0
 	nOb, nDis := 0, 0
